@@ -245,6 +245,11 @@ def run_case(spec):
         elif out is not None and m["tie"] and out == "addSuccess" and ({"error", "failure"} & m["bad"]) and not (
                 m["bad"] == {"error"} and (m["terminated"] or True)):
             pass
+        # ---- whatever else was due at that instant: once the timeout has elapsed the test cannot pass
+        timed_out = any(getattr(getattr(c, "func", None), "__name__", "") == "_timed_out" for tm, c in reactor.fired)
+        if timed_out and out is not None and out != "addError":
+            vs.append(V("outcome", "timeout-elapsed-reported-as-%s" % out, "the timeout call fired (at %r) but the outcome is %s" % (
+                [tm for tm, c in reactor.fired if getattr(getattr(c, "func", None), "__name__", "") == "_timed_out"], out)))
         # ---- cleanliness
         left = reactor.getDelayedCalls()
         if left:
